@@ -16,6 +16,7 @@ RULE = ("value lists (0..7 values drawn from: empty, words, blanks, commas, semi
         "Song::add_tag_list (cmd tagr); all strings of length <= 4 (quick) / <= 6 (thorough) over {a,b,blank,comma,quote,backslash,semicolon} through "
         "add_tag_list and as `@k` lines; random op sequences over a small key pool mixing set_tag/add_tag/add_tag_list/get_or_make_tag/"
         "register_platform_command/get_tag_order_list with `#`, `@`, continuation, comment, blank, track (`A 'cmd'`) and garbage lines (cmd tags); "
+        "files of `#Key text`, `@Key words`, continuation lines with mixed-case/UTF-8 keys judged against the documented meaning (cmd tagl); "
         "plus a malformed byte stream. non-trivial = carries at least one tag of the input-distribution histogram; distinct by request text")
 EXPLANATION = ("theorems over Model/Tags + Spec/TagRender (all lines of the documented shape, all value lists, all op sequences); the model is tied "
                "to song.cpp/mml_input.cpp by regenerated constants and by running both on the generated requests and diffing; the spec oracle "
@@ -49,6 +50,9 @@ def M(l): return "M:%s" % hx(l)
 def R(p, v): return "R:%d:%s" % (p, hx(v))
 
 CORPUS = [
+    # whole lines with a documented meaning (judge: spec semantics of `#`, `@`, continuation, key case, order)
+    "tagl H:5469746c65:20:4d7920736f6e672020 T:466f6f:61,62 K:63 H:7449544c45:09:78 K:64 T:664f4f:. K:65",
+
     # the fixed defect: a quoted item ending in a backslash at the end of the text (read past the NUL)
     "tags " + L("k", '"abc\\'),
     "tags " + L("k", 'x "abc\\'),
@@ -347,6 +351,39 @@ def gen_api_only(rng):
     return Case("tags " + " ".join(ops), ("api-only", "interleaved-keys"), "api")
 
 
+LKEYS = ["title", "Title", "TITLE", "composer", "x", "1", "e2", "E2", "Foo", "fOO", "\u00e4", "\u00c4b", "comment", "pLatForms"]
+LWORDS = [b"a", b"fm3", b"0001", b"1", b"-12", b"x.wav", b"'", b"\\", b"\xc3\xa4", b"\xff", b"a\\n", b"@", b"#"]
+
+
+def gen_tagl(rng):
+    """whole lines with a documented meaning: `#` lines, `@` lines, continuation lines, interleaved keys"""
+    tags = set(["whole-lines"])
+    n = rng.choice([1, 2, 3, 4, 6, 9])
+    es = []
+    def ws():
+        k = rng.choice([0, 1, 1, 2, 3, 5])
+        return ",".join(hx(rng.choice(LWORDS)) for _ in range(k)) or "."
+    for _ in range(n):
+        r = rng.random()
+        if r < 0.4:
+            v = rng.choice([b"My song", b"x", b"a  b", b"a, b; c", b'"q"', b"\xe3\x83\x86\xe3\x82\xb9\xe3\x83\x88", b"a\\", b";x", b",", b"v\x0b"]) \
+                + rng.choice([b"", b"", b" ", b"  \t", b"\r", b" \r\n"])
+            es.append("H:%s:%s:%s" % (hx(rng.choice(LKEYS)), hx(rng.choice([" ", "\t", "  ", " \t "])), hx(v)))
+            tags.add("hash-line")
+            if v[-1:] in b" \t\r\n": tags.add("trailing-blanks")
+        elif r < 0.75:
+            es.append("T:%s:%s" % (hx(rng.choice(LKEYS)), ws()))
+            tags.add("at-line")
+        else:
+            es.append("K:" + ws())
+            tags.add("continuation-line")
+    keys = [e.split(":")[1].lower() for e in es if e[0] in "HT"]
+    if len(set(keys)) > 1: tags.add("multi-key")
+    raw = [bytes.fromhex(e.split(":")[1]) for e in es if e[0] in "HT" and e.split(":")[1] != "-"]
+    if any(any(65 <= c <= 90 for c in k) for k in raw): tags.add("upper-case-key")
+    return Case("tagl " + " ".join(es), sorted(tags), "lines")
+
+
 def exhaustive(maxlen, per_req, as_lines):
     alpha = [b"a", b"b", b" ", b",", b'"', b"\\", b";"]
     cur = []
@@ -394,6 +431,8 @@ def cases(rng, tier):
     for _ in range(800 if quick else 10000):
         yield gen_api_only(rng)
     for _ in range(1200 if quick else 15000):
+        yield gen_tagl(rng)
+    for _ in range(1200 if quick else 15000):
         yield gen_malformed(rng)
 
 
@@ -402,9 +441,17 @@ def finding_key(case, impl, judge):
         m = re.search(r"(\w+\.cpp:\d+)", impl)
         return "crash:" + (m.group(1) if m else impl.split(" ")[0])
     if judge.startswith("fail"):
-        w = judge.split()
-        kind = "-".join(w[1:3]) if len(w) > 2 else "judge"
-        return ("roundtrip" if case.req.startswith("tagr") else "tags") + ":" + re.sub(r"[^a-z_-]", "", kind)
+        if case.req.startswith("tagr"):
+            return "roundtrip"
+        if "tag order" in judge:
+            return "tags:order"
+        if "set_tag" in judge:
+            return "tags:set_tag"
+        if "lines:" in judge:
+            return "lines"
+        if "undefined" in judge:
+            return "tags:ub"
+        return "tags:judge"
     return "other"
 
 
@@ -421,3 +468,15 @@ def shrink(req):
             for cut in (h[:len(h) // 4 * 2], h[len(h) // 4 * 2:], h[2:], h[:-2]):
                 if cut:
                     yield cmd + " " + " ".join(toks[:i] + [":".join(f[:-1] + [cut])] + toks[i + 1:])
+
+
+def outcome_class(a):
+    if a.startswith("err=-"):
+        return "tag-map"
+    if a.startswith("err=InputError"):
+        return "input-error+tag-map"
+    if a.startswith("mml=exc"):
+        return "rendered-input-error"
+    if a.startswith("mml="):
+        return "rendered-values"
+    return a.split(" ")[0][:24]
